@@ -69,6 +69,7 @@ RLit(st, tp, v) ==
     [] v.t = "bool" -> Kw(st, tp, IF v.b THEN "k_true" ELSE "k_false")
     [] v.t = "num"  -> LET sp == IF v.c = "big" THEN <<v.d, v.d \o ".0", "0" \o v.d>>                      \* symbolic numbers: the canonical text and
                                  ELSE IF v.c = "tiny" THEN <<v.d, v.d \o "0", SubSeq(v.d, 2, Len(v.d))>>      \* spellings of the same decimal numeral
+                                 ELSE IF v.c = "dec" THEN <<v.d, v.d \o "0", IF SubSeq(v.d, 1, 2) = "0." THEN SubSeq(v.d, 2, Len(v.d)) ELSE "0" \o v.d>>
                                  ELSE IF v.n % Den # 0 /\ v.n < Den THEN NumSpellings(v) ELSE SubSeq(NumSpellings(v), 1, IF v.n % Den = 0 THEN 4 ELSE 3)
                            p == Pick(st, tp, Len(sp)) IN Out(p[2], sp[p[1] + 1])
     [] v.t = "str"  -> IF v.s = "" THEN (LET p == Pick(st, tp, 2) IN IF p[1] = 0 THEN Out(p[2], "\"\"") ELSE Kw(p[2], tp, "k_empty"))
@@ -194,7 +195,7 @@ Expressible(e) ==
     [] OTHER -> TRUE
 
 (* statements and programs that some text denotes *)
-LitOK(v) == CASE v.t = "num" -> (v.c = "fin" /\ v.n >= 0) \/ (v.c \in {"big", "tiny"} /\ v.s > 0)
+LitOK(v) == CASE v.t = "num" -> (v.c = "fin" /\ v.n >= 0) \/ (v.c \in {"big", "tiny", "dec"} /\ v.s > 0)
               [] v.t = "str" -> \A i \in 1..Len(v.s) : CharAt(v.s, i) \notin {"\"", NL}
               [] OTHER -> TRUE
 RECURSIVE LitsOK(_)
